@@ -73,6 +73,7 @@ MUTANTS = {
                             "question_type = self._question_type")],
         "min_spacing_ignored": [("_services/browser.py", "        if next_scheduled is not None and next_scheduled.when_millis > next_time_millis:",
                                  "        if next_scheduled is not None:")],
+        "browser_cancel_keeps_scheduler": [("_services/browser.py", "        self.done = True\n        self.query_scheduler.stop()", "        self.done = True")],
         "goodbye_keeps_schedule": [("_services/browser.py", "                        self.query_scheduler.cancel_ptr_refresh(pointer)\n", "")],
     },
     "C03": {
@@ -100,5 +101,17 @@ MUTANTS = {
         "guard_interval_zero": [("const.py", "_DUPLICATE_PACKET_SUPPRESSION_INTERVAL = 1000", "_DUPLICATE_PACKET_SUPPRESSION_INTERVAL = 0")],
         "guard_skips_queries": [("_listener.py", "            and not self.last_message.has_qu_question()", "            and not self.last_message.is_query()")],
         "guard_skips_responses": [("_listener.py", "            and not self.last_message.has_qu_question()", "            and self.last_message.is_query() and not self.last_message.has_qu_question()")],
+    },
+    # Not listed for C17 (equivalent under its observations because of defence in depth: every scheduler pass and
+    # async_send re-check `done`, and closed transports deliver nothing): browser cancel without scheduler.stop()
+    # [listed under C10 instead], AsyncZeroconf.async_close without removing the service listeners, and
+    # _process_ready_types without its `done` test.
+    "C17": {
+        "send_ignores_done": [("_core.py", "        if self.done:\n            return\n\n        # If no transport is specified", "        # If no transport is specified")],
+        "cleanup_timer_not_cancelled": [("_engine.py", "        self._cleanup_timer.cancel()", "        pass")],
+        "no_goodbye_on_close": [("asyncio.py", "        await self.async_unregister_all_services()\n        await self.zeroconf._async_close()", "        await self.zeroconf._async_close()")],
+        "goodbye_twice_on_close": [("_core.py", "        for i in range(_REGISTER_BROADCASTS):\n            if i != 0:\n                await asyncio.sleep(millis_to_seconds(_UNREGISTER_TIME))", "        for i in range(2):\n            if i != 0:\n                await asyncio.sleep(millis_to_seconds(_UNREGISTER_TIME))")],
+        "transports_not_closed": [("_engine.py", "        for wrapped_transport in itertools.chain(self.senders, self.readers):\n            wrapped_transport.transport.close()", "        pass")],
+        "sync_close_skips_goodbye": [("_core.py", "            else:\n                self.unregister_all_services()", "            else:\n                pass")],
     },
 }
